@@ -94,5 +94,10 @@ def to_labels(s):
     return out
 
 
+MAX_EVENTS = 400000
+
+
 def replay_line(s):
+    if len(s['events']) > MAX_EVENTS:     # a livelock: the prefix is enough to be rejected (the replay cannot end final)
+        s = dict(s, events=s['events'][:MAX_EVENTS])
     return 'replay %d %d %d %d ; %s ; %s' % (s['n'], s['R'], s['W'], s['bmax'], ' '.join(map(str, s['poss'])), ' '.join(to_labels(s)))
